@@ -5,10 +5,11 @@ package c19
 
 import (
 	"context"
-	"errors"
 	"crypto/sha256"
+	"errors"
 	"fmt"
 	"strings"
+	"sync"
 	"testing"
 
 	"github.com/gogo/protobuf/proto"
@@ -124,14 +125,24 @@ func genPredefinedKeyEvent(t *rapid.T, tx bool) gevent {
 	return gevent{Type: "tm", Attrs: []gattr{{Key: "event", Val: rapid.SampledFrom([]string{"Tx", "NewBlockHeader", "NewBlock", "Vote"}).Draw(t, "pv")}}}
 }
 
-// faultyBlockIndexer / faultyTxIndexer stand for storage that fails to write at some heights.
+// faultyBlockIndexer / faultyTxIndexer stand for storage whose write fails (or a process that dies before it) the
+// FIRST time a height listed in failAt is written; a later attempt for the same height (the height is published
+// again, as the handshake replay does for the last block after an unclean stop) succeeds.
 type faultyBlockIndexer struct {
 	indexer.BlockIndexer
 	failAt map[int64]bool
+	mu     sync.Mutex
+	failed map[int64]bool
 }
 
 func (f *faultyBlockIndexer) Index(bh types.EventDataNewBlockHeader) error {
-	if f.failAt[bh.Header.Height] {
+	f.mu.Lock()
+	first := f.failAt[bh.Header.Height] && !f.failed[bh.Header.Height]
+	if first {
+		f.failed[bh.Header.Height] = true
+	}
+	f.mu.Unlock()
+	if first {
 		return errors.New("verif: injected block index write error")
 	}
 	return f.BlockIndexer.Index(bh)
@@ -140,11 +151,22 @@ func (f *faultyBlockIndexer) Index(bh types.EventDataNewBlockHeader) error {
 type faultyTxIndexer struct {
 	txindex.TxIndexer
 	failAt map[int64]bool
+	mu     sync.Mutex
+	failed map[int64]bool
 }
 
 func (f *faultyTxIndexer) AddBatch(b *txindex.Batch) error {
 	for _, op := range b.Ops {
-		if op != nil && f.failAt[op.Height] {
+		if op == nil {
+			continue
+		}
+		f.mu.Lock()
+		first := f.failAt[op.Height] && !f.failed[op.Height]
+		if first {
+			f.failed[op.Height] = true
+		}
+		f.mu.Unlock()
+		if first {
 			return errors.New("verif: injected tx index write error")
 		}
 	}
@@ -164,7 +186,7 @@ func TestEventBusIndexer(t *testing.T) {
 		// storage trouble: at drawn heights the block indexer resp. the tx indexer reports a write error (default
 		// node configuration: the service logs it and carries on)
 		blkFail, txFail := map[int64]bool{}, map[int64]bool{}
-		svc := txindex.NewIndexerService(&faultyTxIndexer{TxIndexer: txIdx, failAt: txFail}, &faultyBlockIndexer{BlockIndexer: blkIdx, failAt: blkFail}, bus, false)
+		svc := txindex.NewIndexerService(&faultyTxIndexer{TxIndexer: txIdx, failAt: txFail, failed: map[int64]bool{}}, &faultyBlockIndexer{BlockIndexer: blkIdx, failAt: blkFail, failed: map[int64]bool{}}, bus, false)
 		e := newEngine(t, "TestEventBusIndexer", eventBusAPI(bus), cmdCap)
 		e.stuckBy = "; all generated unbuffered subscribers are being read, so it is the indexer service that stopped taking messages: it waits for a tx publication that never reached it"
 		defer func() {
@@ -181,6 +203,7 @@ func TestEventBusIndexer(t *testing.T) {
 			begin, end []gevent
 			txs        []txItem
 			reserved   bool // carries an application event with the reserved key block.height
+			replayed   bool // published a second time right after the first (handshake replay of the last block)
 		}
 		blocks := make([]blk, H+1)
 		var pool []map[string][]string
@@ -203,6 +226,7 @@ func TestEventBusIndexer(t *testing.T) {
 			case "tx-write-error":
 				txFail[h] = true
 			}
+			b.replayed = rapid.IntRange(0, 3).Draw(t, "replayed") == 0
 			if rapid.IntRange(0, 7).Draw(t, "blockpredef") == 0 {
 				ev := genPredefinedKeyEvent(t, false)
 				if rapid.Bool().Draw(t, "inbegin") {
@@ -269,24 +293,30 @@ func TestEventBusIndexer(t *testing.T) {
 		results := map[string]*abci.TxResult{}
 		for h := int64(1); h <= H; h++ {
 			b := blocks[h]
-			publishHeader(h, len(b.txs), b.begin, b.end)
-			for _, it := range b.txs {
-				it := it
-				res := abci.TxResult{Height: it.Height, Index: it.Index, Tx: it.Tx,
-					Result: abci.ResponseDeliverTx{Code: it.Code, Events: toABCI(it.Events)}}
-				results[it.hashHex()] = &res
-				ev := eventMap(it.Events)
-				// predefined keys ("Existing events with the same keys will be overwritten")
-				ev["tm.event"] = []string{"Tx"}
-				ev["tx.hash"] = []string{it.hashHex()}
-				ev["tx.height"] = []string{fmt.Sprint(it.Height)}
-				e.publish(ev, func(d interface{}) error {
-					got, ok := d.(types.EventDataTx)
-					if !ok || got.Height != it.Height || got.Index != it.Index || string(got.Tx) != string(it.Tx) {
-						return fmt.Errorf("payload %v, want tx %d/%d", d, it.Height, it.Index)
-					}
-					return nil
-				}, func(context.Context) error { return bus.PublishEventTx(types.EventDataTx{TxResult: res}) })
+			attempts := 1
+			if b.replayed {
+				attempts = 2
+			}
+			for a := 0; a < attempts; a++ {
+				publishHeader(h, len(b.txs), b.begin, b.end)
+				for _, it := range b.txs {
+					it := it
+					res := abci.TxResult{Height: it.Height, Index: it.Index, Tx: it.Tx,
+						Result: abci.ResponseDeliverTx{Code: it.Code, Events: toABCI(it.Events)}}
+					results[it.hashHex()] = &res
+					ev := eventMap(it.Events)
+					// predefined keys ("Existing events with the same keys will be overwritten")
+					ev["tm.event"] = []string{"Tx"}
+					ev["tx.hash"] = []string{it.hashHex()}
+					ev["tx.height"] = []string{fmt.Sprint(it.Height)}
+					e.publish(ev, func(d interface{}) error {
+						got, ok := d.(types.EventDataTx)
+						if !ok || got.Height != it.Height || got.Index != it.Index || string(got.Tx) != string(it.Tx) {
+							return fmt.Errorf("payload %v, want tx %d/%d", d, it.Height, it.Index)
+						}
+						return nil
+					}, func(context.Context) error { return bus.PublishEventTx(types.EventDataTx{TxResult: res}) })
+				}
 			}
 			if rapid.IntRange(0, 2).Draw(t, "valupd") == 0 {
 				ev := map[string][]string{"tm.event": {"ValidatorSetUpdates"}}
@@ -310,14 +340,16 @@ func TestEventBusIndexer(t *testing.T) {
 		// entry. Only the side that was refused / failed is not asserted for that height.
 		troubled := 0
 		for h := int64(1); h <= H; h++ {
-			blockOK := !blocks[h].reserved && !blkFail[h]
-			if !blockOK || txFail[h] {
+			// a write error is transient: if the height was published again, the second attempt must have repaired it
+			blockOK := !blocks[h].reserved && !(blkFail[h] && !blocks[h].replayed)
+			txWaived := txFail[h] && !blocks[h].replayed
+			if !blockOK || txFail[h] || blkFail[h] {
 				troubled++
 			}
 			if has, err := blkIdx.Has(h); blockOK && (err != nil || !has) {
 				t.Fatalf("block %d was published on the event bus but is not indexed (Has=%v, %v)\n%s", h, has, err, strings.Join(e.hist, "\n"))
 			}
-			if txFail[h] {
+			if txWaived {
 				continue
 			}
 			got, err := txIdx.Search(context.Background(), query.MustParse(fmt.Sprintf("tx.height = %d", h)))
@@ -376,6 +408,12 @@ func TestEventBusIndexer(t *testing.T) {
 			withTx := ":empty-block"
 			if len(blocks[h].txs) > 0 {
 				withTx = ":block-with-txs"
+			}
+			if blocks[h].replayed {
+				withTx += ":published-twice"
+			}
+			if blocks[h].replayed && !blkFail[h] && !txFail[h] && !blocks[h].reserved {
+				cls = append(cls, "height-published-twice-no-trouble")
 			}
 			if blocks[h].reserved {
 				cls = append(cls, "block-events-refused-reserved-key"+withTx)
